@@ -67,7 +67,9 @@ ALT = {"Entity": "CustomEntity", "Backreference": "BackreferenceMapping", "Vecto
 # function-valued fields: plain module-level functions, a static method, and name COLLISIONS in the dataset module:
 # example_classes imports to_json / from_json (module-level names) and defines JSONSerializableClass.to_json (a method)
 FUNCTIONS = ["module_level_function", "CallableWrapper.custom_static_method", "JSONSerializableClass.to_json", "to_json",
-             "from_json", "CallableWrapper.custom_instance_method"]
+             "from_json", "CallableWrapper.custom_instance_method",
+             # the same function name in the same module under different classes
+             "CustomEntity.create_from_dao", "BackreferenceMapping.create_from_dao", "VectorMapped.create_from_dao"]
 ALTBASE = {"DerivedEntity"}  # DAO below an alternatively mapped DAO (to_dao_if_subclass_of_alternative_mapping): not modelled
 CLASS_ID = {n: i + 1 for i, n in enumerate(sorted(set(SCAL) | set(ALT.values())))}
 ROOT_KINDS = (["Torso"] * 8 + ["Node"] * 4 + ["ContainerGeneration", "ItemWithBackreference"] * 2 +
@@ -79,6 +81,8 @@ ROOT_KINDS = (["Torso"] * 8 + ["Node"] * 4 + ["ContainerGeneration", "ItemWithBa
 
 MODEL_MODULE = "test.dataset.example_classes"   # where the domain classes live (harness/c05.py also uses generated models)
 SCAL_TYPES: Dict[str, Dict[str, str]] = {}      # generated models: class -> field -> scalar type name
+TAGNAME: Dict[Tuple[str, str], str] = {}        # (mapping class, its field) -> name of the object's field it stands for (same tag in the heaps)
+DAOKEY: Dict[Tuple[str, str], str] = {}         # (class, reference field) -> relationship key of its DAO when the mapping renames it
 FROZEN: set = set()                             # generated models: classes declared @dataclass(frozen=True)
 FALSY_FIELDS: Dict[str, Tuple[str, str]] = {}   # generated models: class -> ("len"|"bool", field): bool(instance) follows that field
 
@@ -293,7 +297,7 @@ def dump(root, reverse=False) -> Tuple[List[Tuple[int, int, List[int], List[Tupl
         flds = []
         for f, kind, _t, _opt in REFS.get(cn, []):
             v = getattr(o, f, None)
-            tag = TAGS((f.lstrip("_"), kind))
+            tag = TAGS((TAGNAME.get((cn, f), f.lstrip("_")), kind))
             if kind == "one":
                 kids = [] if v is None else [adr(index[id(v)])]
             else:
@@ -567,7 +571,7 @@ def setup_impl():
             continue
         dao = get_dao_class(class_of(cn))
         keys = [r.key for r in sqlalchemy.inspect(dao).relationships]
-        mine = [f.lstrip("_") for f, *_ in refs]
+        mine = [DAOKEY.get((cn, f), f.lstrip("_")) for f, *_ in refs]
         if [k for k in keys if k in mine] != mine:
             raise RuntimeError(f"relationship order of {dao.__name__} is {keys}, the class table of harness/c04.py says {mine}")
     _READY = True
